@@ -1,6 +1,6 @@
 (* C03 correspondence: observed behaviour of pkg/proto/udp (+ msg.WriteMsg/ReadMsg, and the whole
    frps/frpc tunnel) against Model/Udp.v, and the property monitors on observed traces. *)
-From FRP Require Export Corr.Common Model.Udp Proofs.RegistryCheck.
+From FRP Require Export Corr.Common Model.Udp Model.UdpSched Proofs.RegistryCheck.
 Open Scope Z_scope.
 
 Definition udp_registry := registry type_consts type_map.
@@ -35,7 +35,12 @@ Inductive case :=
    backend (in order) and reply indices seen by each of the two users (payloads checked by the driver) *)
 | CFull (bufsize k : Z) (users : list uaddr) (backend_idx user0_idx user1_idx : list Z)
 (* the capacities of the channels the code creates (every make(chan ..., N) of the four proxy/visitor files) *)
-| CCap (caps : list Z).
+| CCap (caps : list Z)
+(* replay of the idle-boundary witness on the real udp.Forwarder (gate udp.forwarder.before_write):
+   d1 is written and answered; the loop is held between mu.Unlock and Write for d2 while the
+   30 s read deadline of the socket fires (the reader deletes the entry and closes the socket);
+   released; then d3.  Observed: the backend log (source-port index, payload) *)
+| CRace (bufsize : Z) (user : uaddr) (d1 d2 d3 : bytes) (backend : list (Z * bytes)).
 
 Definition opt_uaddr_eqb (a b : option uaddr) : bool :=
   match a, b with
@@ -176,6 +181,24 @@ Fixpoint zlist_eqb (a b : list Z) : bool :=
   | _, _ => false
   end.
 
+(* the lock-granularity model on the witness schedule, followed by the four writer steps of d3 *)
+Definition race_schedule : list gtid :=
+  [TWriter; TWriter; TWriter; TWriter; TWriter; TWriter; TWriter;
+   TDeadline 0; TReader 0; TReader 0; TReader 0; TReader 0; TWriter;
+   TWriter; TWriter; TWriter; TWriter].
+Definition race_model (bufsize : Z) (user : uaddr) (d1 d2 d3 : bytes) : list gout :=
+  snd (grun {| uc_buf := bufsize |}
+            (ginit (map (fun d => new_udp_packet d None (Some user)) [d1; d2; d3])) race_schedule).
+(* the observation equals what the model predicts for the racing schedule, and that prediction loses d2 *)
+Definition race_lost (c : case) : bool :=
+  match c with
+  | CRace bufsize user d1 d2 d3 backend =>
+      let tr := race_model bufsize user d1 d2 d3 in
+      zb_list_eqb (flat_map (fun o => match o with GWrote s _ d => [(Z.of_N s, d)] | _ => [] end) tr) backend
+      && existsb (fun o => match o with GWriteErr _ _ d => bytes_eqb d d2 | _ => false end) tr
+  | _ => false
+  end.
+
 (* 0 = agrees; otherwise a reason code *)
 Definition check_case (c : case) : Z :=
   match c with
@@ -268,6 +291,10 @@ Definition check_case (c : case) : Z :=
           else 0
       end
   | CCap caps => if forallb (fun n => n =? uqcap) caps && (4 <=? Z.of_nat (length caps)) then 0 else 45
+  | CRace bufsize user d1 d2 d3 backend =>
+      if race_lost (CRace bufsize user d1 d2 d3 backend) then 0
+      else (* the loss did not happen (no gate in this build, or repaired code): then all three arrive once *)
+        if zb_list_eqb (map (fun p => (0, snd p)) backend) [(0, d1); (0, d2); (0, d3)] then 0 else 51
   end.
 
 Definition is_pkt (c : case) : bool := match c with CPkt _ _ _ _ _ _ _ _ _ => true | _ => false end.
@@ -277,6 +304,7 @@ Definition is_dec_err (c : case) : bool := match c with CDec _ false _ => true |
 Definition is_fwd (c : case) : bool := match c with CFwd _ _ _ _ _ => true | _ => false end.
 Definition is_idle (c : case) : bool := match c with CIdle _ _ _ _ _ _ _ => true | _ => false end.
 Definition is_full (c : case) : bool := match c with CFull _ _ _ _ _ _ => true | _ => false end.
+Definition is_race (c : case) : bool := match c with CRace _ _ _ _ _ _ => true | _ => false end.
 Definition is_cap (c : case) : bool := match c with CCap _ => true | _ => false end.
 Definition is_sys (c : case) : bool := match c with CSys _ _ _ _ _ => true | _ => false end.
 (* sockets the model created in the CFwd cases (the per-user map was exercised) *)
